@@ -520,6 +520,15 @@ fn quantile_sweep(run: &Arc<Run>, thorough: bool) {
                     verdict("quantile::ci", qclass, &want, &call(|| quantile::ci(c, &data, q)).map(|i| Obs::of64(&i)), &inp, l);
                     verdict("quantile::ci_sorted_unchecked", qclass, &want, &call(|| quantile::ci_sorted_unchecked(c, &sorted, q)).map(|i| Obs::of64(&i)), &inp, l);
                     verdict("quantile::ci_max_size<128>", qclass, &want, &call(|| quantile::ci_max_size::<f64, _, 128>(c, &data, q)).map(|i| Obs::of64(&i)), &inp, l);
+                    // the same hostile quantiles on samples made of ties only (constant, and constant but for one value at
+                    // either end): a shortcut for "all values equal" must not bypass the validation of q and of the counts
+                    for (shape, cd) in [("constant", vec![3.0f64; n]), ("constant-but-last", { let mut v = vec![3.0f64; n]; if let Some(x) = v.last_mut() { *x = 4.0; } v }), ("constant-but-first", { let mut v = vec![3.0f64; n]; if let Some(x) = v.first_mut() { *x = 2.0; } v })] {
+                        let qc = format!("{}|{}-sample", qclass, shape);
+                        let inp = || json!({"n": n, "q": jf(q), "kind": kind.name(), "level": level, "data": shape});
+                        verdict("quantile::ci", &qc, &want, &call(|| quantile::ci(c, &cd, q)).map(|i| Obs::of64(&i)), &inp, l);
+                        verdict("quantile::ci_sorted_unchecked", &qc, &want, &call(|| quantile::ci_sorted_unchecked(c, &cd, q)).map(|i| Obs::of64(&i)), &inp, l);
+                        verdict("quantile::ci_max_size<128>", &qc, &want, &call(|| quantile::ci_max_size::<f64, _, 128>(c, &cd, q)).map(|i| Obs::of64(&i)), &inp, l);
+                    }
                 }
             }
             // Stats::index: documented errors TooFewSamples (empty) / InvalidQuantile (outside [0,1])
